@@ -221,7 +221,7 @@ func runC13(p *core.Prog, r *core.Report, tier string) {
 						return -1
 					}
 					// the flag itself is a MatchString result
-					if c.B.IsCall("regexp.Regexp.MatchString") {
+					if c.B.IsCall("regexp.Regexp.MatchString") || c.B.IsCall("regexp.Regexp.Match") {
 						if c.BoolOnEdge(0) {
 							return 0
 						}
@@ -244,7 +244,7 @@ func runC13(p *core.Prog, r *core.Report, tier string) {
 						sawTrue = true
 						holder := lf.Pred.Parent()
 						w := core.UnguardedLeaf(ds, holder, nil, lf, func(c2 core.Cond) int {
-							if c2.B != nil && c2.B.IsCall("regexp.Regexp.MatchString") {
+							if c2.B != nil && (c2.B.IsCall("regexp.Regexp.MatchString") || c2.B.IsCall("regexp.Regexp.Match")) {
 								if c2.BoolOnEdge(0) {
 									return 0
 								}
@@ -284,6 +284,68 @@ func runC13(p *core.Prog, r *core.Report, tier string) {
 					"an account offered by the wallet/signer can be accepted without its name having matched a configured specifier", p.WitnessText(w)...)
 			})
 			// the name matched is "wallet/account"
+			// … also when it is assembled as bytes in a buffer: the buffer is fed from wallet.Name(), a '/' and account.Name()
+			for _, mc := range core.CallsNamed(f, "Match") {
+				if callee := mc.Common().StaticCallee(); callee == nil || callee.Signature.Recv() == nil || !strings.HasSuffix(callee.Signature.Recv().Type().String(), "regexp.Regexp") {
+					continue
+				}
+				sawWallet, sawAccount, sawSlash, other := false, false, false, ""
+				seen := map[ssa.Value]bool{}
+				var walk func(v ssa.Value, depth int)
+				walk = func(v ssa.Value, depth int) {
+					if v == nil || seen[v] || depth > 12 {
+						return
+					}
+					seen[v] = true
+					switch x := v.(type) {
+					case *ssa.Phi:
+						for _, e := range x.Edges {
+							walk(e, depth+1)
+						}
+					case *ssa.Slice:
+						walk(x.X, depth+1)
+					case *ssa.Convert:
+						walk(x.X, depth+1)
+					case *ssa.Const:
+						if core.IsIntConst(x, '/') {
+							sawSlash = true
+						}
+					case *ssa.Alloc:
+						// the varargs array of an append: its element stores
+						if x.Referrers() != nil {
+							for _, ref := range *x.Referrers() {
+								if ia, ok := ref.(*ssa.IndexAddr); ok && ia.Referrers() != nil {
+									for _, r2 := range *ia.Referrers() {
+										if st, ok := r2.(*ssa.Store); ok {
+											walk(st.Val, depth+1)
+										}
+									}
+								}
+							}
+						}
+					case *ssa.Call:
+						if b, ok := x.Call.Value.(*ssa.Builtin); ok && b.Name() == "append" {
+							for _, a := range x.Call.Args {
+								walk(a, depth+1)
+							}
+							return
+						}
+						n := core.CalleeName(x.Common())
+						switch {
+						case strings.HasSuffix(n, "Wallet.Name"):
+							sawWallet = true
+						case strings.HasSuffix(n, "Account.Name"):
+							sawAccount = true
+						default:
+							other = n
+						}
+					default:
+						other = ds.D(v).String()
+					}
+				}
+				walk(mc.Common().Args[len(mc.Common().Args)-1], 0)
+				r.Check(sawWallet && sawAccount && sawSlash && other == "", "C13.b", tag+"|"+core.FnKey(f)+"|matched-name", p.Pos(mc.Pos()), "the bytes matched are wallet.Name(), '/', account.Name()", "the bytes matched against the specifiers are not assembled from wallet.Name(), '/' and account.Name() only (also: "+other+")")
+			}
 			for _, mc := range core.CallsNamed(f, "MatchString") {
 				nd := ds.D(mc.Common().Args[len(mc.Common().Args)-1])
 				okName := nd.IsCall("fmt.Sprintf") && nd.MentionsCall("Wallet.Name") && nd.MentionsCall("Account.Name")
